@@ -1,5 +1,5 @@
 (* C20 - text and encoding helpers. Statements only. *)
-From Plush Require Import model.Bytes model.Text proofs.TextProofs proofs.EscapeProofs proofs.Utf8Proofs proofs.JsonProofs proofs.HtmlProofs.
+From Plush Require Import model.Bytes model.Text proofs.TextProofs proofs.EscapeProofs proofs.Utf8Proofs proofs.JsonProofs proofs.HtmlProofs proofs.TruncProofs.
 
 (* truncate returns s unchanged (byte-identical, any bytes) when it has at
    most size characters *)
@@ -32,6 +32,11 @@ Theorem C20_truncate_bound : forall s size trail,
   (size < Z.of_nat (rune_len s))%Z ->
   (Z.of_nat (rune_len (truncate s size trail)) <= Z.max size (Z.of_nat (rune_len trail)))%Z.
 Proof. exact truncate_bound. Qed.
+
+(* truncating a result again with the same size and trail changes nothing *)
+Theorem C20_truncate_idempotent : forall s size trail,
+  truncate (truncate s size trail) size trail = truncate s size trail.
+Proof. exact truncate_idempotent. Qed.
 
 (* the UTF-8 facts behind it: decoding yields Unicode scalar values only, and
    decoding what was encoded from scalar values gives them back *)
@@ -86,6 +91,7 @@ Proof. exact decode1_tail_high. Qed.
 
 Print Assumptions C20_truncate_characters.
 Print Assumptions C20_truncate_bound.
+Print Assumptions C20_truncate_idempotent.
 Print Assumptions C20_decode_encode.
 Print Assumptions C20_js_escape_ok.
 Print Assumptions C20_to_json_clean.
